@@ -25,8 +25,8 @@ pub fn prop() -> Prop {
         id: "C15",
         level: "exploration",
         runs: |t| match t {
-            Tier::Quick => 500,
-            Tier::Thorough => 9000,
+            Tier::Quick => 3000,
+            Tier::Thorough => 36000,
         },
         generate,
         exec,
